@@ -2247,7 +2247,71 @@ func attestObs(key []byte, tok []byte, ds [][]byte, trusted map[string][]macaroo
 	})
 }
 
+// harnessClaim: an attestation type of the APPLICATION (the exported macaroon.Attestation interface, a type number in
+// the user-defined range): every rule about attestations holds for it as for the three built-in ones
+type harnessClaim struct {
+	ID uint64 `json:"id"`
+}
+
+var cavHarnessClaim = macaroon.CaveatType(uint64(macaroon.CavMinUserDefined) + 0x7a7a01)
+
+func init() { macaroon.RegisterCaveatType(&harnessClaim{}) }
+
+func (c *harnessClaim) CaveatType() macaroon.CaveatType   { return cavHarnessClaim }
+func (c *harnessClaim) Name() string                      { return "ZZHarnessClaim" }
+func (c *harnessClaim) Prohibits(a macaroon.Access) error { return macaroon.ErrBadCaveat }
+func (c *harnessClaim) IsAttestation() bool               { return true }
+
+func appAttestationRun(r *Rng) string {
+	key, kaTrusted, kaOwn := r.Bytes(32), r.Bytes(32), r.Bytes(32)
+	loc, tpLoc := "https://api.fly.io/v1", "https://auth.example"
+	claim := &harnessClaim{ID: 42}
+	if !macaroon.IsAttestation(claim) {
+		return "application-defined-attestation-not-recognised-as-one"
+	}
+	root, _ := macaroon.New(r.Bytes(8), loc, key)
+	root.Add(r.plainCav(1))
+	// a bearer adds it to a non-proof token
+	if m, err := macaroon.Decode(mustEnc(root)); err == nil {
+		if m.Add(claim) == nil {
+			if cs, err := m.Verify(key, nil, nil); err == nil && len(macaroon.GetCaveats[*harnessClaim](cs)) > 0 {
+				return "application-defined-attestation-added-by-a-bearer-was-returned"
+			}
+			return "application-defined-attestation-accepted-by-Add-on-a-non-proof-token"
+		}
+		if m.Add(&resset.IfPresent{Ifs: macaroon.NewCaveatSet(claim), Else: resset.ActionAll}) == nil {
+			return "wrapped-application-defined-attestation-accepted-by-Add"
+		}
+	}
+	// a bearer adds an own third-party caveat naming the TRUSTED location and discharges it with a proof of its own
+	// that carries the claim: whatever the verifier trusts (nothing, the real party's key, several keys), it is not returned
+	m, _ := macaroon.Decode(mustEnc(root))
+	if m.Add3P(kaOwn, tpLoc) != nil {
+		return "harness-error"
+	}
+	c3 := macaroon.GetCaveats[*macaroon.Caveat3P](&m.UnsafeCaveats)[0]
+	_, dm, err := macaroon.DischargeTicket(kaOwn, tpLoc, c3.Ticket)
+	if err != nil || dm.Add(claim) != nil {
+		return "harness-error(discharge)"
+	}
+	db := mustEnc(dm)
+	for _, trusted := range []map[string][]macaroon.EncryptionKey{nil, {}, {tpLoc: {kaTrusted}}, {tpLoc: {r.Bytes(32), kaTrusted}}} {
+		mm, _ := macaroon.Decode(mustEnc(m))
+		cs, err := mm.Verify(key, [][]byte{db}, trusted)
+		if err == nil && len(macaroon.GetCaveats[*harnessClaim](cs)) > 0 {
+			return "application-defined-attestation-from-an-untrusted-discharge-was-returned"
+		}
+	}
+	// sanity: from a discharge under a key the verifier does trust it IS returned
+	mm, _ := macaroon.Decode(mustEnc(m))
+	if cs, err := mm.Verify(key, [][]byte{db}, map[string][]macaroon.EncryptionKey{tpLoc: {kaOwn}}); err != nil || len(macaroon.GetCaveats[*harnessClaim](cs)) != 1 {
+		return "application-defined-attestation-from-a-trusted-discharge-was-not-returned"
+	}
+	return "sound"
+}
+
 func famAttest(r *Rng, o *Out, tier string) {
+	o.emit("(const sound)", appAttestationRun(r))
 	n := 40
 	if tier == "thorough" {
 		n = 600
